@@ -339,7 +339,10 @@ func c14NestedPrint(d Directive, how int) string {
 			rec = recSafeFormatter{&got}
 		}
 		got = fstate{}
+		var before, after fstate
 		outer := scriptedFn(func(p redact.SafePrinter) {
+			before = capture(p, 'v')
+			defer func() { after = capture(p, 'v') }()
 			switch how {
 			case 0:
 				p.Print(rec)
@@ -356,6 +359,11 @@ func c14NestedPrint(d Directive, how int) string {
 		}
 		if !got.Called {
 			continue // the outer verb does not dispatch to SafeFormat
+		}
+		// the directive state the OUTER method sees is the same after its nested call as before it (the nested
+		// directives are applied to a state of their own)
+		if before.key() != after.key() || before.Fmt != after.Fmt {
+			return fmt.Sprintf("SafeFormat reached under %s: after its nested call (shape %d, operand a %s) the printer it was given reports state %s (MakeFormat=%q); before the call it reported %s (MakeFormat=%q)", d, how, name, after.key(), after.Fmt, before.key(), before.Fmt)
 		}
 		var want fstate
 		ref := "%v"
